@@ -662,7 +662,10 @@ void Blocks::split(Block *b, Block *&l, Block *&r, Constraint *c) {
     f<<"Split left: "<<*l<<endl;
     f<<"Split right: "<<*r<<endl;
 #endif
-    r->posn = b->posn;
+    // Leave the variables of r where they were while l is merged leftwards.
+    // posn is in units of the block's own scale (see Variable::position()),
+    // and r's scale (that of its first variable) need not be b's.
+    r->posn = b->posn * b->ps.scale / r->ps.scale;
     //COLA_ASSERT(r->weight!=0);
     //r->wposn = r->posn * r->weight;
     mergeLeft(l);
